@@ -6,12 +6,14 @@ from sympy.physics.units import Quantity as SymQuantity, Dimension
 from .symbols.symbols import DimensionSymbol, Function, Symbol, IndexedSymbol
 from .operations.symbolic import Symbolic
 from .dimensions import assert_equivalent_dimension
+from . import verif_hooks as _verif_hooks
 
 _ValueType: TypeAlias = SupportsFloat | DimensionSymbol | Symbolic
 
 _UnitType: TypeAlias = Dimension | Symbol | Function | IndexedSymbol | Symbolic
 
 
+@_verif_hooks.traced("gate_check")
 def _assert_expected_unit(
     value: _ValueType | Sequence[_ValueType],
     expected_units: _UnitType | Sequence[_UnitType],
@@ -68,8 +70,12 @@ def validate_input(**decorator_kwargs: Any) -> Callable[[Callable[..., Any]], Ca
                     arg = bound_args.arguments[param.name]
                     _assert_expected_unit(arg, decorator_kwargs[param.name], param.name,
                         func.__name__)
+            if _verif_hooks.enabled:
+                _verif_hooks.emit("gate_run", function=func.__name__, module=func.__module__)
             return func(*args, **kwargs)
 
+        if _verif_hooks.enabled:
+            setattr(wrapper_validate, "__verif_spec__", ("input", decorator_kwargs))
         return wrapper_validate
 
     return validate_func
@@ -91,8 +97,12 @@ def validate_output(
         def wrapper_validate(*args: Any, **kwargs: Any) -> Any:
             ret = func(*args, **kwargs)
             _assert_expected_unit(ret, expected_unit, "return", func.__name__)
+            if _verif_hooks.enabled:
+                _verif_hooks.emit("gate_return", function=func.__name__, module=func.__module__)
             return ret
 
+        if _verif_hooks.enabled:
+            setattr(wrapper_validate, "__verif_spec__", ("output", expected_unit))
         return wrapper_validate
 
     return validate_func
@@ -122,8 +132,12 @@ def validate_output_same(param_name: str) -> Callable[[Any], Callable[..., Any]]
             ret = func(*args, **kwargs)
 
             _assert_expected_unit(ret, expected_unit, "return", func.__name__)
+            if _verif_hooks.enabled:
+                _verif_hooks.emit("gate_return", function=func.__name__, module=func.__module__)
             return ret
 
+        if _verif_hooks.enabled:
+            setattr(wrapper_validate, "__verif_spec__", ("output_same", param_name))
         return wrapper_validate
 
     return validate_func
